@@ -23,8 +23,8 @@ func verifBackoff(ctx context.Context, d *Downloader) {
 	}
 }
 
-// VerifDownloaders returns, per instance, the phase of its downloader and whether it has
-// processed the newest snapshot seen for its instance (racy read of Downloader.last).
+// VerifDownloaders returns, per instance, the phase of its downloader and whether a wake-up
+// signal is waiting for it ("idle" + "nosignal": it will not move until it is notified).
 func (r *Receiver) VerifDownloaders() map[string][2]string {
 	r.mu.Lock()
 	defer r.mu.Unlock()
@@ -32,15 +32,11 @@ func (r *Receiver) VerifDownloaders() map[string][2]string {
 	for inst, d := range r.downloadersByInstance {
 		ph, _ := verifPhases.Load(d)
 		p, _ := ph.(string)
-		up := "behind"
-		ni, ok := r.lastSeenByInstance[inst]
-		if inst == r.ownInstance {
-			ni, ok = r.lastNotifiedByInstance[inst]
+		sig := "nosignal"
+		if len(d.newSnapshotSignal) > 0 {
+			sig = "signal"
 		}
-		if !ok || d.last.FullName == ni.FullName {
-			up = "uptodate"
-		}
-		out[inst] = [2]string{p, up}
+		out[inst] = [2]string{p, sig}
 	}
 	return out
 }
